@@ -660,6 +660,96 @@ fn oracle(log: &[Obs], mode: Mode, bad_url: bool, cup: bool) -> V {
     Ok(())
 }
 
+// ---------------------------------------------------------------------------------------------
+// reboot wait with pings: between WaitingForReboot and Idle nothing else is announced as a state,
+// whatever the pings sent during the wait are answered, and the next check starts a fresh sequence
+
+fn run_reboot_wait(ctx: &RunCtx, tier: Tier) -> RunOut {
+    use crate::hist::{self, Hist, Rep, Uc};
+    let mut setup = Setup::new(Mode::Start);
+    setup.cup = choose("cup", 2) == 1;
+    let mut h = Hist::new(setup, Store::default());
+    {
+        let mut k = h.knobs();
+        k.uc = Uc::Update;
+        k.reboot_needed = true;
+        k.reboot_allowed = false;
+    }
+    h.check();
+    let max_pings = tier.pick(3, 4);
+    let n_pings = choose("pings", max_pings + 1);
+    let mut desc = vec![];
+    for _ in 0..n_pings {
+        let o = choose("ping.outcome", 5);
+        {
+            let mut k = h.knobs();
+            *k = hist::Knobs::default();
+            k.reboot_needed = true;
+            k.reboot_allowed = false;
+            match o {
+                0 => {}
+                1 => k.other = vec![Rep::Transport],
+                2 => k.other = vec![Rep::Status500],
+                3 => k.ping_unparseable = true,
+                _ => k.other_retry_after = vec![Some(b"120".to_vec())],
+            }
+        }
+        desc.push(["ok", "transport", "http 500", "unparseable", "ok + X-Retry-After"][o]);
+        h.ping();
+    }
+    let refused_again = choose("refused_on_first_timer", 2) == 1;
+    if refused_again {
+        h.reboot_timer();
+    }
+    h.knobs().reboot_allowed = true;
+    h.reboot_timer();
+    // the next check is an ordinary one
+    {
+        let mut k = h.knobs();
+        *k = hist::Knobs::default();
+        k.uc = Uc::NoUpdate;
+    }
+    h.check();
+    let log = h.log();
+    let mut out = RunOut::new(format!("pings{n_pings}"), n_pings > 0, trace::digest(&log));
+    if ctx.want_trace {
+        out.trace = Some(json!({"pings": desc, "refused_on_first_timer": refused_again, "log": trace::trace_json(&log)}));
+    }
+    if let Some(p) = h.problems.first() {
+        return out.fail(format!("driver problem: {p}"), format!("{desc:?}"));
+    }
+    let states: Vec<State> = log.iter().filter_map(|o| if let Obs::Ev(Ev::State(s)) = o { Some(*s) } else { None }).collect();
+    let ok = matches!(
+        states.as_slice(),
+        [State::CheckingForUpdates(_), State::InstallingUpdate, State::WaitingForReboot, State::Idle, State::CheckingForUpdates(_), State::NoUpdateAvailable, State::Idle]
+    );
+    if !ok {
+        return out.fail(
+            "states announced around a reboot wait with pings are not [Checking, Installing, WaitingForReboot, Idle, Checking, NoUpdate, Idle]",
+            format!("{states:?}; pings answered {desc:?}"),
+        );
+    }
+    let n_results = log.iter().filter(|o| matches!(o, Obs::Ev(Ev::Result(_)))).count();
+    if n_results != 2 {
+        return out.fail(format!("{n_results} check results for two checks (pings must not produce results)"), format!("{desc:?}"));
+    }
+    // result of check 1 precedes WaitingForReboot; the reboot precedes Idle
+    let pos = |f: &dyn Fn(&Obs) -> bool| log.iter().position(|o| f(o));
+    let r1 = pos(&|o| matches!(o, Obs::Ev(Ev::Result(_))));
+    let wr = pos(&|o| matches!(o, Obs::Ev(Ev::State(State::WaitingForReboot))));
+    let rb = pos(&|o| matches!(o, Obs::Reboot(_)));
+    let idle = pos(&|o| matches!(o, Obs::Ev(Ev::State(State::Idle))));
+    if !(r1 < wr && wr < rb && rb < idle) || rb.is_none() {
+        return out.fail("order result < WaitingForReboot < reboot < Idle violated", format!("{r1:?} {wr:?} {rb:?} {idle:?}"));
+    }
+    // no server-response event is announced for a ping answer
+    let n_sr = log.iter().filter(|o| matches!(o, Obs::Ev(Ev::ServerResp(_)))).count();
+    if n_sr != 2 {
+        return out.fail(format!("{n_sr} server-response announcements for two update checks"), format!("{desc:?}"));
+    }
+    out
+}
+
 fn parts(tier: Tier) -> Vec<PartDef> {
     vec![
         PartDef::new(
@@ -682,6 +772,13 @@ fn parts(tier: Tier) -> Vec<PartDef> {
             Cfg::new("C04/two-consecutive-checks").dev(tier.pick(5, 7)),
             json!({"apps": "1..2", "iterations": 2, "alphabets": "as flow-nocup, chosen independently per check", "exploration": format!("all histories within {} non-default choices", tier.pick(5, 7))}),
             move |ctx| run_iter(ctx, tier, false, false, 2),
+        ),
+        PartDef::new(
+            "reboot-wait-with-pings",
+            Cfg::new("C04/reboot-wait-with-pings"),
+            json!({"history": "installed update needing a reboot, reboot refused; 0..n pings during the wait; 30-minute timer (refused once more or not), reboot, then an ordinary check", "pings": format!("0..{}", tier.pick(3, 4)),
+                   "ping_answers": ["ok", "transport", "http 500", "unparseable", "ok + X-Retry-After"], "cup": 2, "exploration": "full product"}),
+            move |ctx| run_reboot_wait(ctx, tier),
         ),
         PartDef::new(
             "flow-cup",
